@@ -346,6 +346,13 @@ void run_C05(Ctx &cx) {
     cx.begin(desc);
     cx.rep.count("mutants");
     if (in.identical) { cx.rep.count("mutants_identical_to_original"); }
+    // the original is accepted first in the same process (every third case): whatever an accepted operation remembers
+    // about (file, key) must not let the modified copy through afterwards
+    if (cx.idx % 3 == 0) {
+      ops::Result g = ops::verify(in.base->F, in.base->ep.key, in.base->ep.T);
+      cx.rep.count("original_verified_first");
+      if (!g.ret) cx.rep.violation("C05|genuine-file-rejected", "the unmodified file no longer verifies", desc);
+    }
     Outcome o = run_both(in);
     const Base &b = *in.base;
     bool accepted = o.v.ret || o.d.ret;
@@ -387,6 +394,11 @@ void run_C06(Ctx &cx) {
     cx.begin(desc);
     if (in.identical) return; // not a wrong key
     cx.rep.count("trials");
+    if (cx.idx % 2 == 0) { // the right key is used first in the same process, then the wrong one
+      ops::Result g = ops::verify(in.base->F, in.base->ep.key, in.base->ep.T);
+      cx.rep.count("right_key_used_first");
+      if (!g.ret) cx.rep.violation("C06|right-key-rejected", "the right key no longer verifies", desc);
+    }
     Outcome o = run_both(in);
     vh::J j;
     j.boolean("verify", o.v.ret).boolean("decrypt", o.d.ret).num("writes", (long long)o.d.writes.size()).num("out_len", (long long)o.d.out.size());
